@@ -150,7 +150,7 @@ var MutationKinds = []string{
 	"binder-to-scope", "case-payload-to-scope", "case-payload-to-scope", "binder-to-alias", "binder-to-alias", "alias-to-live", "alias-to-live", "alias-to-live", "cut-reuse-self-as-name", "drop-statement", "dup-statement", "rename-binder", "rename-use", "wait-to-drop", "insert-drop", "insert-split",
 	"extra-provider", "swap-send-args", "wrong-label", "drop-branch", "dup-branch", "extra-branch", "arity-minus", "arity-plus",
 	"wrong-callee", "self-misplaced", "ann-inequivalent", "ann-mode", "param-mode", "ret-mode", "prc-mode", "ann-equivalent",
-	"swap-statements", "cut-body-continuation", "remove-ann", "polarity", "self-arg", "shift-words", "typedef-change", "toplevel-cycle", "merge-binders", "merge-binders", "dup-function",
+	"swap-statements", "cut-body-continuation", "remove-ann", "polarity", "self-arg", "shift-words", "typedef-change", "toplevel-cycle", "merge-binders", "merge-binders", "dup-function", "shadow-and-forget", "shadow-and-forget",
 }
 
 // Mutate applies one single-site edit to a clone of p. ok=false when the chosen operator has
@@ -337,6 +337,84 @@ func (d D) Mutate(p *ast.Program, kind string) (*ast.Program, string, bool) {
 			return nil, "", false
 		}
 		return q, fmt.Sprintf("binder %s renamed to %s (uses unchanged) in %s", from, to, declName(r.Decl)), true
+	case "shadow-and-forget": // a binder takes the name of a live channel, and the statement that used that channel up goes
+		// two edits that belong together: after them every name is still used exactly once as far as
+		// spellings go, but one channel has been silently discarded by the binder that hides it
+		type site struct {
+			r    termRef
+			slot *ast.Nm   // the binder to respell
+			stmt *ast.Term // `wait to` / `drop to` below the binder
+			prev *ast.Term
+			brk  int // branch index for case payloads (-1 otherwise)
+		}
+		var cs []site
+		for _, r := range terms {
+			if len(r.Scope) == 0 {
+				continue
+			}
+			inScope := map[string]bool{}
+			for _, n := range r.Scope {
+				inScope[n] = true
+			}
+			// a removable use of an earlier name on the straight-line continuation below the binder
+			find := func(start *ast.Term, head *ast.Term) (stmt, prev *ast.Term) {
+				prev = head
+				for k := start; k != nil; prev, k = k, k.K {
+					if (k.Kind == ast.TWait || k.Kind == ast.TDrop) && !k.X.Self && inScope[k.X.S] {
+						return k, prev
+					}
+					if k.Kind != ast.TWait && k.Kind != ast.TDrop && k.Kind != ast.TPrint {
+						return nil, nil
+					}
+				}
+				return nil, nil
+			}
+			add := func(slot *ast.Nm, start, head *ast.Term, brk int) {
+				if slot.Self {
+					return
+				}
+				if st, pv := find(start, head); st != nil && pv != head {
+					// (the statement must not be the binder's direct continuation slot of a branch head,
+					// which has no K to patch: pv == head means prev is the binder term itself - fine for
+					// K-linked forms, handled below)
+					cs = append(cs, site{r, slot, st, pv, brk})
+				} else if st != nil && brk < 0 {
+					cs = append(cs, site{r, slot, st, pv, brk})
+				}
+			}
+			switch r.T.Kind {
+			case ast.TRecv, ast.TSplit:
+				add(&r.T.X, r.T.K, r.T, -1)
+				add(&r.T.Y, r.T.K, r.T, -1)
+			case ast.TShift, ast.TNew:
+				add(&r.T.X, r.T.K, r.T, -1)
+			case ast.TCase:
+				for i := range r.T.Brs {
+					if k := r.T.Brs[i].K; k != nil {
+						// the head of a branch cannot be unlinked through a K field: look below it
+						if st, pv := find(k.K, k); st != nil {
+							cs = append(cs, site{r, &r.T.Brs[i].Payload, st, pv, i})
+						}
+					}
+				}
+			}
+		}
+		if len(cs) == 0 {
+			return nil, "", false
+		}
+		c := cs[d.Pick(len(cs), "site")]
+		to, from := c.stmt.X.S, c.slot.S
+		if to == from {
+			return nil, "", false
+		}
+		c.prev.K = c.stmt.K // the use of `to` is gone
+		c.slot.S = to
+		if c.brk >= 0 {
+			renameUses(&ast.Term{K: c.r.T.Brs[c.brk].K}, from, to)
+		} else {
+			renameUses(c.r.T, from, to)
+		}
+		return q, fmt.Sprintf("binder %s of a %s now hides the live channel %s, whose `%s %s;` is gone (%s)", from, ast.TermKindName[c.r.T.Kind], to, ast.TermKindName[c.stmt.Kind], to, declName(c.r.Decl)), true
 	case "binder-to-scope", "case-payload-to-scope": // a binder takes the name of a channel bound earlier on the same path
 		r, ok := pick(func(r termRef) bool {
 			if len(r.Scope) == 0 {
